@@ -3,6 +3,7 @@
    repaired: Each iterates over a copy; the TCP knock is queued where a SYN is handled; UDP
    groups carry ProtocolUDP). *)
 From HT Require Import Common.Bytes C20.Model C20.Check C20.Proofs.
+From Coq Require Import Permutation.
 Open Scope Z_scope.
 
 (* ---------------------------------------------------------------- the grouping container *)
@@ -69,6 +70,41 @@ Definition C20_full : Prop :=
 Theorem C20_scan_reported_once : C20_full.
 Proof. exact scan_full. Qed.
 
+(* reports are per (protocol, source, destination): every port of a group was knocked by the
+   group's own source on the group's own destination address - probes of different sensor
+   addresses are never merged -, every knock is in the group of its destination, and there is
+   one group per key *)
+Theorem C20_reports_per_destination : forall ks gs,
+  groups_exact ks gs ->
+  (forall g pr, In g gs -> In pr (r_ports (report_of g)) ->
+     exists k, In k ks /\ port_of k = pr /\ k_dip k = g_dip g /\ k_sip k = g_sip g /\
+               k_smac k = g_smac g /\ k_dmac k = g_dmac g /\ proto_of (k_kind k) = proto_of (g_kind g)) /\
+  (forall k, In k ks -> exists g, In g gs /\ g_dip g = k_dip k /\ g_sip g = k_sip k /\
+               In (port_of k) (r_ports (report_of g))) /\
+  (forall g1 g2, In g1 gs -> In g2 gs -> gkey g1 = gkey g2 -> g1 = g2).
+Proof. exact groups_per_destination. Qed.
+
+(* the knock queue (capacity cap, blocking send): for EVERY schedule of producer attempts and
+   detector receives, the knocks not yet sent, those queued and those received are together
+   exactly the knocks of the burst - none lost, none duplicated -, and the queue never exceeds
+   its capacity *)
+Theorem C20_queue_no_knock_lost : forall cap ks steps,
+  let st := q_run cap steps (q_init ks) in
+  Permutation (osomes (q_pending st) ++ q_queue st ++ map fst (q_done st)) ks /\
+  (length (q_queue st) <= cap)%nat.
+Proof. exact q_no_knock_lost. Qed.
+
+(* so, whatever the schedule and however much larger than the queue the burst is: once every
+   producer has sent and the queue is drained, the detector has received a permutation of the
+   burst and holds exactly one group per (protocol, source, destination) with exactly the
+   ports probed *)
+Theorem C20_queue_complete_schedule_exact : forall cap ks steps,
+  let st := q_run cap steps (q_init ks) in
+  q_complete st ->
+  Permutation (map fst (q_done st)) ks /\
+  groups_exact ks (d_groups (run_knocks (q_done st) det0)).
+Proof. exact q_complete_exact. Qed.
+
 (* any tick, any state with distinct group objects: exactly the due groups are reported, once
    each and in order, and exactly the due groups younger than 60 s are removed *)
 Theorem C20_tick_reports_due_groups_once : forall now d,
@@ -97,7 +133,7 @@ Proof. exact tcp_knock_iff. Qed.
    its 4-tuple has *)
 Theorem C20_syn_probe_knocks : forall st ackok p,
   p_proto p = 0%N -> flag (p_flags p) 1 = true -> flag (p_flags p) 4 = false -> p_port p <> 22%N ->
-  knocks_of_probe st ackok p = [mkKnock KTcp (src_mac (p_src p)) dst_mac (src_ip (p_src p)) dst_ip (p_port p)].
+  knocks_of_probe st ackok p = [mkKnock KTcp (src_mac (p_src p)) dst_mac (src_ip (p_src p)) (dst_ip_of (p_dst p)) (p_port p)].
 Proof. exact syn_probe_knocks. Qed.
 
 (* ---------------------------------------------------------------- from the frame to the knock *)
@@ -193,6 +229,9 @@ Print Assumptions C20_uset_each_only_removes.
 Print Assumptions C20_uset_each_remove_exact.
 Print Assumptions C20_groups_exact.
 Print Assumptions C20_scan_reported_once.
+Print Assumptions C20_reports_per_destination.
+Print Assumptions C20_queue_no_knock_lost.
+Print Assumptions C20_queue_complete_schedule_exact.
 Print Assumptions C20_tick_reports_due_groups_once.
 Print Assumptions C20_idle_ticks_report_nothing.
 Print Assumptions C20_tcp_knock_iff.
